@@ -36,7 +36,7 @@ RULE = ("file descriptions generated directly: 1-4 blocks; per block 1-3 header 
         "with the header lines, blank / whitespace-only lines at the top of the file, before the vertex-count line "
         "and anywhere after it, vertex-count line (true node count, sometimes another non-zero number, '0' for "
         "zero-vertex blocks), edge lines with random spacing, node names numeric / alphabetic / punctuated, weights "
-        "int and dyadic float literals (incl. exponent, leading '+', '.5', '3.'), repeated edges (later weight wins), "
+        "int and float literals (dyadic and not, incl. exponent, leading '+', '.5', '3.', values within 1e-6 of an integer, 1e-9), repeated edges (later weight wins), "
         "graphs = random DAG order plus back edges and self-loops, repaired to have >= 1 source and >= 1 sink. "
         "Corruptions: every applicable (line, kind) pair of a sampled file, kinds = token deleted, token added, "
         "non-numeric weight, non-numeric vertex count, '#S' line naming an absent edge, garbage line inside a block. "
@@ -157,6 +157,35 @@ def with_file(text, fn):
             pass
 
 
+LOG = {"debug": False}
+
+
+def set_logging(fp, debug):
+    """the package logger at DEBUG (messages go to a NullHandler) or silenced: what is parsed must not depend on it"""
+    import logging
+    lg = fp.utils.logger
+    LOG["debug"] = bool(debug)
+    if debug:
+        logging.disable(logging.NOTSET)
+        for h in lg.handlers[:]:
+            lg.removeHandler(h)
+        lg.addHandler(logging.NullHandler())
+        lg.propagate = False
+        lg.setLevel(logging.DEBUG)
+    else:
+        lg.setLevel(logging.CRITICAL)
+        logging.disable(logging.CRITICAL)
+
+
+def finp(text, **extra):
+    """replayable input of a violation / disagreement"""
+    d = {"file": text}
+    if LOG["debug"]:
+        d["logging"] = "DEBUG"
+    d.update(extra)
+    return d
+
+
 ACCEPTED = []      # base graphs that stDiGraph accepted during the last run_impl (observation only)
 
 
@@ -217,7 +246,7 @@ def k1(ctx, suite, text, nontrivial=True, hist=None, lines=None):
     ctx.rep.cov["traces_validated_against_impl"] += 1
     if not same(obs, model):
         if not source_sink_oracle(ctx, text, res, model):
-            ctx.disagree(suite, {"file": text}, obs if obs[0] == "exc" else obs[1], model)
+            ctx.disagree(suite, finp(text), obs if obs[0] == "exc" else obs[1], model)
     return res
 
 
@@ -245,7 +274,7 @@ def k1_single(ctx, suite, lines):
     ctx.rep.cov["traces_validated_against_impl"] += 1
     if not same(obs, model):
         if not source_sink_oracle(ctx, text, res, model):
-            ctx.disagree(suite, {"file": text, "single_block": True}, obs if obs[0] == "exc" else obs[1], model)
+            ctx.disagree(suite, finp(text, single_block=True), obs if obs[0] == "exc" else obs[1], model)
     return res
 
 
@@ -265,7 +294,7 @@ def source_sink_oracle(ctx, text, res, model):
         if no_src or no_snk:
             ctx.violation("stDiGraph accepted a graph without " + ("source" if no_src else "sink")
                           + f" (documented: ValueError); read_graph stored w={G.graph.get('w')}",
-                          {"file": text, "nodes": list(G.nodes), "edges": [list(e) for e in G.edges]}, site=SITE_ST)
+                          finp(text, nodes=list(G.nodes), edges=[list(e) for e in G.edges]), site=SITE_ST)
             return True
     return False
 
@@ -281,7 +310,9 @@ NAME_POOLS = [
     lambda i: ["s", "t", "S", "0", "1.5", "x", "a#", "n", "inf", "e1"][i % 10] + ("" if i < 10 else str(i)),
 ]
 WEIGHTS = ["1", "2", "7", "10", "0", "42", "3.0", "2.5", "0.25", "0.125", "1e1", "2E0", ".5", "3.", "+4", "-1.5",
-           "100", "12.75", "1e-0", "6.0e1", "007"]
+           "100", "12.75", "1e-0", "6.0e1", "007",
+           # not representable / next to an integer / tiny: the value stored has to be float(token), nothing "tidier"
+           "0.1", "4.9999999", "2.0000004", "1e-07", "2.9999999999", "0.30000000000000004", "123456.0000001", "1e-9"]
 WS = [" ", " ", " ", "  ", "\t", " \t "]
 
 
@@ -441,7 +472,7 @@ def gen_block(rng, bi, zero):
         lines.append(blank_line(rng)); roles.append(("blank-body",))
     emap = {}
     for (u, v), w in zip(edges, weights):
-        emap[(u, v)] = Fraction(w)
+        emap[(u, v)] = Fraction(float(w))      # the listed weight: the double the literal denotes
     exp["nodes"] = nodes
     exp["edges"] = emap
     return lines, exp, roles
@@ -526,7 +557,7 @@ def oracle_wellformed(ctx, text, exps, res):
             for k, w in e["edges"].items():
                 x = got_e[k]
                 if not isinstance(x, float) or x != x or x in (float("inf"), float("-inf")) or Fraction(x) != w:
-                    bad.append((f"block {bi}: weight of {k} is {x!r}, listed {w}", SITE))
+                    bad.append((f"block {bi}: weight of {k} is {x!r}, listed {float(w)!r}", SITE))
         if G.graph.get("id") != e["id"]:
             bad.append((f"block {bi}: id {G.graph.get('id')!r} != first header line {e['id']!r}", SITE))
         cons = [[[u, v] for (u, v) in c] for c in G.graph.get("constraints", [])]
@@ -612,7 +643,7 @@ def check_corruption(ctx, suite, kind, clines, zero, where, do_k1=True):
     else:
         res = run_impl(ctx.fp, text)
     ctx.rep.cov["oracle_evaluations"] += 1
-    inp = {"file": text, "corruption": kind, "corrupted_line": where, "zero_vertex_block": bool(zero)}
+    inp = finp(text, corruption=kind, corrupted_line=where, zero_vertex_block=bool(zero))
     if res[0] == "ok":
         ctx.violation(f"malformed block silently accepted ({kind}"
                       + (", in a block whose vertex-count line is 0" if zero else "") + "): read_graphs returned "
@@ -633,7 +664,7 @@ def check_wellformed(ctx, suite, lines, exps, do_k1=True):
     ctx.rep.count("oracle.wellformed", text, nontrivial=nontriv, hist=[f"blocks={len(exps)}"])
     bad = oracle_wellformed(ctx, text, exps, res)
     for what, site in bad:
-        ctx.violation(what, {"file": text}, site=site)
+        ctx.violation(what, finp(text), site=site)
     return res, not bad
 
 
@@ -715,6 +746,10 @@ def run(ctx):
     done = 0
     for it in range(nfiles):
         lines, exps, roles = gen_file(rng)
+        # every fourth file (and its corruptions) is read with the package logger at DEBUG level
+        set_logging(ctx.fp, it % 4 == 1)
+        if LOG["debug"]:
+            ctx.rep.cov["files_read_with_DEBUG_logging"] = ctx.rep.cov.get("files_read_with_DEBUG_logging", 0) + 1
         res, ok = check_wellformed(ctx, "K1.wellformed", lines, exps)
         if it < 2:
             ctx.rep.sample({"file": "".join(lines),
@@ -725,6 +760,7 @@ def run(ctx):
             for kind, clines, zero, where in cs[:per_file]:
                 check_corruption(ctx, "K1.corrupted", kind, clines, zero, where)
                 done += 1
+    set_logging(ctx.fp, False)
     ctx.rep.cov["corruptions"] = done
 
 
@@ -735,18 +771,20 @@ def search(ctx):
         text = d["input"].get("file", "")
         res = run_impl(ctx.fp, text)
         if res[0] == "exc" and res[1] != "ValueError":
-            ctx.violation(f"read_graphs raised {res[1]} ({res[2]}) — only ValueError is specified", {"file": text},
+            ctx.violation(f"read_graphs raised {res[1]} ({res[2]}) — only ValueError is specified", finp(text),
                           site=SITE)
     cands = []
     for _ in range(3000):
         cands.append(gen_file(rng))
     cands.sort(key=lambda c: len(c[0]))
-    for lines, exps, roles in cands:
+    for j, (lines, exps, roles) in enumerate(cands):
+        set_logging(ctx.fp, j % 2 == 1)
         check_wellformed(ctx, "search.wellformed", lines, exps, do_k1=False)
         for kind, clines, zero, where in corruptions(rng, lines, exps, roles)[:6]:
             check_corruption(ctx, "search.corrupted", kind, clines, zero, where, do_k1=False)
         if len(ctx.violations) > 30:
             break
+    set_logging(ctx.fp, False)
     ctx.violations.sort(key=lambda v: len(v["input"].get("file", "")))
 
 
@@ -755,6 +793,7 @@ def replay(ctx, payload):
     if not inp or "file" not in inp:
         print("nothing to replay"); return
     text = inp["file"]
+    set_logging(ctx.fp, inp.get("logging") == "DEBUG")
     if inp.get("single_block"):
         res = k1_single(ctx, "replay", text.splitlines(keepends=True))
         print("impl:", res if res[0] == "exc" else [graph_obs(G) for G in res[1]]); return
